@@ -2,6 +2,7 @@ import Ecal.Lemmas.PriorityBook
 import Ecal.Lemmas.PriorityHeapPop
 import Ecal.Lemmas.PriorityHeapPush
 import Ecal.Lemmas.PriorityCascade
+import Ecal.Lemmas.PriorityValid
 import Ecal.Gen.C10
 /-!
 # C10 — priorities order execution; the first failing rule ends a trigger sequence
@@ -394,6 +395,167 @@ theorem heap_pop_is_min (l l' : List Item) (x : Item) (hok : Heap.Ok Item.lt l l
 
 example : (Heap.pop Item.lt (Heap.push Item.lt (Heap.push Item.lt (Heap.push Item.lt [] ⟨3, 0, 10⟩) ⟨0, 1, 11⟩) ⟨0, 2, 12⟩)).map
     (fun r => (r.1.val, r.2.map (·.val))) = some (11, [12, 10]) := by decide
+
+/-! ### several workers on one `TaskQueue` -/
+
+theorem tq_get_set_same (t : TQ) (root : Nat) (q : PQ) : (t.set root q).get root = q := by
+  simp [TQ.set, TQ.get]
+
+theorem tq_get_set_other (t : TQ) (root r : Nat) (q : PQ) (h : r ≠ root) :
+    (t.set root q).get r = t.get r := by
+  have hne : (root == r) = false := by simpa using fun e => h e.symm
+  simp only [TQ.set, TQ.get, List.find?_cons, hne]
+  have : List.find? (fun x => x.1 == r) (List.filter (fun x => x.1 != root) t)
+      = List.find? (fun x => x.1 == r) t := by
+    induction t with
+    | nil => rfl
+    | cons a as ih =>
+      by_cases ha : a.1 = root
+      · have h1 : (a.1 != root) = false := by simp [ha]
+        have h2 : (a.1 == r) = false := by simpa [ha] using fun e => h e.symm
+        simp [List.filter_cons, h1, List.find?_cons, h2, ih]
+      · have h1 : (a.1 != root) = true := by simpa using ha
+        simp only [List.filter_cons, h1, if_true, List.find?_cons]
+        split <;> simp_all
+  rw [this]
+
+/-- `TaskQueue` states reachable by **any sequence of atomic `Push` / `Pop` calls** — by any number
+    of workers and adders, on any root monitors, in any interleaving (each call holds `tq.lock`, so
+    an execution with several workers *is* such a sequence: the order in which the lock was taken) -/
+inductive ReachableTQ : TQ → Prop where
+  | empty : ReachableTQ []
+  | push {t} (root val : Nat) (prio : Int) : ReachableTQ t → ReachableTQ (t.push root val prio)
+  | pop {t t' root m} : ReachableTQ t → t.pop root = some (m, t') → ReachableTQ t'
+
+theorem reachableTQ_get {t : TQ} (h : ReachableTQ t) : ∀ root, Reachable (t.get root) := by
+  induction h with
+  | empty => intro root; simp only [TQ.get, List.find?_nil]; exact .empty
+  | push root val prio _ ih =>
+    intro r
+    unfold TQ.push
+    by_cases hr : r = root
+    · subst hr; rw [tq_get_set_same]; exact .push val prio (ih r)
+    · rw [tq_get_set_other _ _ _ _ hr]; exact ih r
+  | @pop t t' root m _ hp ih =>
+    intro r
+    unfold TQ.pop at hp
+    split at hp
+    · cases hp
+    · rename_i m' q' hq
+      cases hp
+      by_cases hr : r = root
+      · subst hr; rw [tq_get_set_same]; exact .pop (ih r) hq
+      · rw [tq_get_set_other _ _ _ _ hr]; exact ih r
+
+/-- **Several workers taking events of one cascade.** In every `TaskQueue` state reachable by any
+    interleaving of atomic pushes and pops, a pop that serves root `root` returns the least
+    (priority, insertion number) queued for that root at that moment — nothing queued for the root
+    precedes it, everything left for the root comes strictly after it — and leaves the queues of
+    all other roots untouched. -/
+theorem several_workers_pop_is_min {t t' : TQ} {root : Nat} {m : Item} (hr : ReachableTQ t)
+    (hp : t.pop root = some (m, t')) :
+    m ∈ (t.get root).items ∧
+    (∀ x ∈ (t.get root).items, ¬ x.prio < m.prio ∧ ¬ (x.prio = m.prio ∧ x.seq < m.seq)) ∧
+    (∀ x ∈ (t'.get root).items, m.prio < x.prio ∨ (m.prio = x.prio ∧ m.seq < x.seq)) ∧
+    ∀ r, r ≠ root → t'.get r = t.get r := by
+  have hq := reachableTQ_get hr root
+  unfold TQ.pop at hp
+  split at hp
+  · cases hp
+  · rename_i m' q' hpop
+    cases hp
+    obtain ⟨h1, h2, _, _⟩ := pop_is_min _ _ _ hpop
+    refine ⟨h1, h2, ?_, fun r hne => tq_get_set_other _ _ _ _ hne⟩
+    rw [tq_get_set_same]
+    exact no_overtaking hq hpop
+
+theorem runTrace_reachable : ∀ (tr : List QEv) (t t' : TQ), ReachableTQ t → runTrace t tr = some t' →
+    ReachableTQ t'
+  | [], t, t', h, hr => by simp [runTrace] at hr; subst hr; exact h
+  | .push root prio mon :: rest, t, t', h, hr => by
+    simp only [runTrace] at hr
+    exact runTrace_reachable rest _ _ (.push root mon prio h) hr
+  | .pop root mon :: rest, t, t', h, hr => by
+    simp only [runTrace] at hr
+    split at hr
+    · rename_i m t1 hp
+      split at hr
+      · exact runTrace_reachable rest _ _ (.pop h hp) hr
+      · cases hr
+    · cases hr
+
+theorem runTrace_append : ∀ (pre post : List QEv) (t : TQ),
+    runTrace t (pre ++ post) = (runTrace t pre).bind fun t1 => runTrace t1 post
+  | [], post, t => by simp [runTrace]
+  | .push root prio mon :: pre, post, t => by
+    simp only [List.cons_append, runTrace]; exact runTrace_append pre post _
+  | .pop root mon :: pre, post, t => by
+    simp only [List.cons_append, runTrace]
+    split
+    · split
+      · exact runTrace_append pre post _
+      · rfl
+    · rfl
+
+/-- the replay used by the check accepts a trace iff the model can follow it -/
+theorem checkTrace_none_iff : ∀ (tr : List QEv) (t : TQ) (k : Nat),
+    checkTrace t k tr = none ↔ (runTrace t tr).isSome
+  | [], t, k => by simp [checkTrace, runTrace]
+  | .push root prio mon :: rest, t, k => by
+    simp only [checkTrace, runTrace]; exact checkTrace_none_iff rest _ _
+  | .pop root mon :: rest, t, k => by
+    simp only [checkTrace, runTrace]
+    split
+    · split
+      · exact checkTrace_none_iff rest _ _
+      · simp
+    · simp
+
+/-- **What an accepted trace means** (this is the statement the replay of the recorded
+    `queue.push` / `queue.pop` traces checks, for any number of workers): if the replay accepts a
+    trace — the sequence of `TaskQueue` calls in lock order, whoever made them — then at *every* pop
+    event of the trace the task taken is the least (priority, insertion number) among the tasks
+    queued for its root monitor at that moment, and every task still queued for that root comes
+    strictly after it. -/
+theorem accepted_trace_pops_are_min (pre post : List QEv) (root mon : Nat)
+    (h : checkTrace [] 0 (pre ++ .pop root mon :: post) = none) :
+    ∃ t1 m t2, runTrace [] pre = some t1 ∧ ReachableTQ t1 ∧ t1.pop root = some (m, t2) ∧ m.val = mon ∧
+      (∀ x ∈ (t1.get root).items, ¬ x.prio < m.prio ∧ ¬ (x.prio = m.prio ∧ x.seq < m.seq)) ∧
+      (∀ x ∈ (t2.get root).items, m.prio < x.prio ∨ (m.prio = x.prio ∧ m.seq < x.seq)) := by
+  rw [checkTrace_none_iff, runTrace_append] at h
+  cases h1 : runTrace [] pre with
+  | none => simp [h1] at h
+  | some t1 =>
+    have hr1 := runTrace_reachable pre [] t1 .empty h1
+    simp only [h1, Option.bind_some, runTrace] at h
+    split at h
+    · rename_i m t2 hp
+      split at h
+      · rename_i hm
+        obtain ⟨_, h2, h3, _⟩ := several_workers_pop_is_min hr1 hp
+        exact ⟨t1, m, t2, rfl, hr1, hp, by simpa using hm, h2, h3⟩
+      · simp at h
+    · simp at h
+
+/-! ### the validator for runs with free tie order -/
+
+/-- **The validator accepts exactly the runs of the rule loop under some admissible sort** (rules
+    named by position; the error report compared as a set): `Ecal.Priority.validRun_sound` and
+    `validRun_complete`. -/
+theorem validRun_iff (flag : Bool) (rules : List Rule)
+    (hn : ∀ (i : Nat) (r : Rule), rules[i]? = some r → r.name = i) (exec errs : List Nat) :
+    validRun flag rules exec errs = true ↔
+      ∃ sort, IsPrioSort sort ∧ (processRules sort flag rules).1.map (·.name) = exec ∧
+        ((processRules sort flag rules).2.map (·.name)).Perm errs := by
+  constructor
+  · exact validRun_sound flag rules exec errs
+  · rintro ⟨sort, hs, rfl, hperm⟩
+    have h := validRun_complete flag rules hn sort hs
+    unfold validRun at h ⊢
+    simp only [Bool.and_eq_true] at h ⊢
+    refine ⟨h.1, ?_⟩
+    have h2 := List.isPerm_iff.mp h.2
+    exact List.isPerm_iff.mpr (h2.trans hperm)
 
 /-! ### priority numbers below 0 -/
 
